@@ -305,6 +305,11 @@ namespace trk
         throw_countdown() = -1;
         return pending;
     }
+    inline bool &throw_on_moves() // when set, move constructions count (and may throw) as well
+    {
+        static bool b = false;
+        return b;
+    }
     inline void maybe_throw()
     {
         int &n = throw_countdown();
@@ -351,8 +356,10 @@ namespace trk
                 return;
             init(v);
         }
-        Tracked(Tracked &&o) noexcept
+        Tracked(Tracked &&o) noexcept(false) // "move" of a type whose move is an allocating copy may throw
         {
+            if (throw_on_moves())
+                maybe_throw(); // before the source is touched
             Registry *r = cur();
             int v = -7;
             int *h = nullptr;
